@@ -347,3 +347,137 @@ def fresh_dir(tag):
     d = os.path.join(base, "%s-%d" % (tag, os.getpid()))
     os.makedirs(d, exist_ok=True)
     return d
+
+
+# ---------------------------------------------------------------------------
+class FaultInjector:
+    """sys.monitoring CALL events restricted to thejoker's own code objects.
+
+    An injection point is (file, function, bytecode offset, occurrence number).  In 'count' mode the
+    sequence of points of an execution is recorded; in 'inject' mode the exception is raised from the
+    callback at the chosen point, which propagates into the monitored frame exactly as if the callee
+    had raised.
+    """
+
+    TOOL = 2  # sys.monitoring.PROFILER_ID
+
+    def __init__(self, root):
+        import sys
+
+        self.mon = sys.monitoring
+        self.root = os.path.realpath(root)
+        self.codes = None
+        self.active = False
+        self.mode = None
+        self.points = []
+        self.occ = {}
+        self.target = None
+        self.exc = None
+        self.fired = None
+        self.skip = ()
+
+    def _collect(self):
+        import sys
+        import types
+
+        seen = set()
+        out = []
+
+        def walk(code):
+            if id(code) in seen or not os.path.realpath(code.co_filename).startswith(self.root):
+                return
+            seen.add(id(code))
+            out.append(code)
+            for c in code.co_consts:
+                if isinstance(c, types.CodeType):
+                    walk(c)
+
+        for name, mod in list(sys.modules.items()):
+            f = getattr(mod, "__file__", None)
+            if not f or not os.path.realpath(f).startswith(self.root) or not f.endswith(".py"):
+                continue
+            if os.sep + "tests" + os.sep in f:
+                continue
+            for obj in list(vars(mod).values()):
+                fn = getattr(obj, "__func__", obj)
+                code = getattr(fn, "__code__", None)
+                if isinstance(code, types.CodeType) and os.path.realpath(code.co_filename).startswith(self.root):
+                    walk(code)
+                w = getattr(obj, "__wrapped__", None)
+                if w is not None and hasattr(w, "__code__"):
+                    walk(w.__code__)
+                if isinstance(obj, type):
+                    for m in list(vars(obj).values()):
+                        fn = getattr(m, "__func__", m)
+                        if isinstance(fn, property):
+                            for g in (fn.fget, fn.fset):
+                                if g is not None and hasattr(g, "__code__"):
+                                    walk(g.__code__)
+                        code = getattr(fn, "__code__", None)
+                        if isinstance(code, types.CodeType) and os.path.realpath(code.co_filename).startswith(self.root):
+                            walk(code)
+                # closures (e.g. the wrapper returned by tempfile_decorator)
+                clo = getattr(fn, "__closure__", None) or ()
+                for cell in clo:
+                    try:
+                        v = cell.cell_contents
+                    except ValueError:
+                        continue
+                    c2 = getattr(v, "__code__", None)
+                    if isinstance(c2, types.CodeType) and os.path.realpath(c2.co_filename).startswith(self.root):
+                        walk(c2)
+        return out
+
+    def install(self):
+        mon = self.mon
+        if mon.get_tool(self.TOOL) is None:
+            mon.use_tool_id(self.TOOL, "verif-fault-injector")
+        self.codes = self._collect()
+        mon.register_callback(self.TOOL, mon.events.CALL, self._cb)
+        for c in self.codes:
+            mon.set_local_events(self.TOOL, c, mon.events.CALL)
+
+    def uninstall(self):
+        mon = self.mon
+        for c in self.codes or []:
+            mon.set_local_events(self.TOOL, c, 0)
+        mon.register_callback(self.TOOL, mon.events.CALL, None)
+        try:
+            mon.free_tool_id(self.TOOL)
+        except Exception:
+            pass
+
+    def _cb(self, code, offset, callable_, arg0):
+        if not self.active:
+            return None
+        key0 = (os.path.basename(code.co_filename), code.co_qualname, offset)
+        n = self.occ.get(key0, 0)
+        self.occ[key0] = n + 1
+        key = key0 + (n,)
+        name = getattr(callable_, "__qualname__", None) or getattr(callable_, "__name__", None) or type(callable_).__name__
+        if self.mode == "count":
+            self.points.append(key + (str(name),))
+            return None
+        if self.target is not None and key == self.target and self.fired is None:
+            self.fired = key + (str(name),)
+            self.active = False  # single fault
+            raise self.exc
+        return None
+
+    def count(self, fn):
+        self.mode, self.points, self.occ, self.target, self.fired = "count", [], {}, None, None
+        self.active = True
+        try:
+            res = fn()
+        finally:
+            self.active = False
+        return res, list(self.points)
+
+    def inject(self, fn, point, exc):
+        self.mode, self.points, self.occ, self.fired = "inject", [], {}, None
+        self.target, self.exc = tuple(point[:4]), exc
+        self.active = True
+        try:
+            return fn()
+        finally:
+            self.active = False
